@@ -231,6 +231,14 @@ Theorem C05_extern_order_insensitive : forall l1 l2,
 Proof. exact extern_order_insensitive. Qed.
 Print Assumptions C05_extern_order_insensitive.
 
+(* every path rustc lists in dep-info as a source of the crate is in the list whose contents are hashed, whatever its
+   name or extension: files embedded with include_bytes!/include_str! are listed there too (assets/plugin.so, x.rlib) *)
+Theorem C05_depinfo_every_listed_source : forall t ts fs envs cwd f,
+  target_ok t = true -> forallb dep_path_ok fs = true -> In f fs ->
+  In (path_join cwd f) (parse_dep_info (print_dep_info (t :: ts) fs envs) cwd).
+Proof. exact depinfo_every_listed_source. Qed.
+Print Assumptions C05_depinfo_every_listed_source.
+
 (* ---------- non-vacuity ---------- *)
 
 Example dep_paths_ok_example :
